@@ -1491,7 +1491,7 @@ class Interp:
         return ONE
 
     def diagnostic_only(self, f, call):
-        """the value of ``call`` is bound to a local that is read only inside logging calls"""
+        """the value of ``call`` is bound to a local that is read only inside logging calls (or never read)"""
         if f is None:
             return False
         from .base import own_nodes
@@ -1509,7 +1509,8 @@ class Interp:
                     if isinstance(x, ast.Name) and x.id == target:
                         logged.add(id(x))
         loads = [x for x in own_nodes(f) if isinstance(x, ast.Name) and x.id == target and isinstance(x.ctx, ast.Load)]
-        return bool(loads) and all(id(x) in logged for x in loads)
+        # a local that is never read at all (its logging statement was canonicalised away) is dead: diagnostic too
+        return all(id(x) in logged for x in loads)
 
     def method(self, base, m, e, args, A, kw, env):
         bs = strip(base) if not isinstance(base, Tup) else base
